@@ -5,6 +5,9 @@ Domain   one history over a generated tree whose files have pairwise distinct co
          directories (as a separate class: into newly created directories), 0-2 unrelated new files, sealed with
          `create -dr` (same or different formats, with or without -n); afterwards verify, diff, create; a renamed file
          altered; and the same tree sealed without -dr on a twin world.
+         Later additions: up to three rounds (there, back, and on); whole-folder renames over histories made with / without
+         -n (the old folder may be reported missing where no directory hash exists, the files never); a -dr run that
+         also introduces a pattern matching a former name; case-only renames.
 Oracle   from the rename map the harness applied: create -dr exits 0 and prints no missing block; the new manifest
          (independent reader) has previousPath == old path on exactly the renamed files; verify, diff and create
          then exit 0; after altering a renamed file verify exits 11 and names the new path; without -dr create exits
